@@ -78,6 +78,7 @@ inductive Op where
   | close (fd : Nat)
   | rename (src dst : Str)
   | unlink (name : Str)
+  | restart    -- the process died (kill, crash of pprof) and the web UI is started again
   deriving DecidableEq, Repr
 
 /-- One successful system call; `none` = the call cannot succeed in this state (EBADF, ENOENT,
@@ -130,6 +131,9 @@ def step (s : FS) : Op → Option FS
     match aget s.dir name with
     | none => none
     | some _ => some { s with dir := adel s.dir name, dirOld := s.dir :: s.dirOld }
+  -- start-up after the process died: its handles are gone; pprof's start-up (makeWebInterface)
+  -- neither reads nor writes the settings directory: leftover temp files are never promoted
+  | .restart => some { s with fds := [] }
 
 /-- states after every prefix of the operations (first = the start state); `none` if an operation
 cannot succeed. -/
